@@ -21,3 +21,6 @@ func VerifAuthFunc(token string) func(ctx context.Context) (context.Context, err
 func VerifCreateAPIServer(log *zap.Logger, reg func(grpc.ServiceRegistrar)) (*regattaserver.RegattaServer, error) {
 	return createAPIServer(log, reg)
 }
+
+// VerifResolveURL re-exports resolveURL (what the scheme of a configured address means).
+func VerifResolveURL(u string) (addr string, secure bool, network string) { return resolveURL(u) }
